@@ -19,7 +19,7 @@ def _raise_stack():
 
 def _key(fields):
     k = fields[0]
-    if k in ("R", "V", "RK", "VK"):
+    if k in ("R", "V", "VW", "RK", "VK"):
         return fields[1] + "\t" + fields[3]
     if k in ("RX", "VX"):
         return fields[1] + "\t" + fields[2]
@@ -67,8 +67,10 @@ def run_model_sharded(name, cases_path, shards=12, timeout=3000):
     for b in buckets:
         b.sort()
         data = b"\n".join(lines[i] for i in b) + (b"\n" if b else b"")
+        # the byte lists of multi-megabyte streams make the default GC pacing spend minutes re-marking them
+        env = dict(os.environ, OCAMLRUNPARAM="s=16M,o=800")
         p = subprocess.Popen([C.runner(name)], stdin=subprocess.PIPE, stdout=subprocess.PIPE, stderr=subprocess.STDOUT,
-                             preexec_fn=_raise_stack)
+                             preexec_fn=_raise_stack, env=env)
         procs.append((p, b, data))
     import threading
     outs = [None] * len(procs)
